@@ -98,12 +98,13 @@ class Jacobi(da.Solver):
         # To reduce computations, the expression is mildly optimized.
 
         # Precompute constant expressions
-        if not hasattr(self, "const_diag"):
-            self.const_diag = self._diag(h)
-        if not hasattr(self, "const_diag_scaled"):
-            self.const_diag_scaled = np.divide(
-                self.const_diag, self.diffusion_coeff / h**2
-            )
+        # NOTE: Depends on the current coefficients and mesh size - do not cache
+        # across calls (the object is reused with updated parameters, and as
+        # smoother on several multigrid levels).
+        self.const_diag = self._diag(h)
+        self.const_diag_scaled = np.divide(
+            self.const_diag, self.diffusion_coeff / h**2
+        )
         rhs_scaled = np.divide(rhs, self.const_diag)
 
         # Split the tolerance based part to avoid unnecessary boolean evaluation
